@@ -148,6 +148,16 @@ fn builtin_lines(bf: &BFont, plan: &str, seed: u64) -> Vec<LineSpec> {
     }
     out.push(LineSpec { chars: un.clone(), pos: (3, -2), sty: text_only, api: 0 });
     out.push(LineSpec { chars: un, pos: (-7, 5), sty: four[2], api: 1 });
+    // carriage returns: Text treats ONE trailing CR of a line as part of the line ending (CR LF); every other CR
+    // (in the middle, or a second one at the end) is an unmapped character with its own cell.  The renderer's
+    // draw_string (api 1) knows no line endings at all.
+    let (a, b) = (chars[1 % chars.len()], chars[2 % chars.len()]);
+    for (k, (cs, api)) in [(vec![a, b, 13, 13], 0u8), (vec![a, 13, b, 13], 0), (vec![13, 13, 13], 0), (vec![a, b, 13], 1), (vec![13, a], 0), (vec![a, 13, 13, 13, 13], 0)]
+        .into_iter()
+        .enumerate()
+    {
+        out.push(LineSpec { chars: cs, pos: (k as i32 * 3 - 5, 4 - k as i32), sty: if k % 2 == 0 { four[1] } else { text_only }, api });
+    }
     // seeded style combinations on seeded strings
     let combos = all_styles(col);
     let nrand = if plan == "thorough" { 8 } else { 2 };
